@@ -66,6 +66,18 @@ CLAIMS = {
              note="Python dict modelled as insertion-ordered association list; print() as append to a list.",
              tech="Coq proof: invariants by induction over operation histories; model/implementation differential correspondence",
              ref="DESIGN.md §4 C15"),
+ "C18": dict(text="Coq theorems over a model of open file descriptions (one read position each, shared through fork) and file objects that "
+             "reopen themselves before every seek and every readline when os.getpid() differs from the pid they were opened in: for EVERY "
+             "file content, offset index, tree of forks (children of children) and interleaving of the processes' seeks and reads, every "
+             "read returns what readline returns at the offset that very process sought (the single-process result); processes that have "
+             "used the file since their fork never share a description; the same model without reopening is refuted by a machine-checked "
+             "witness. Tied to /repo with real forked processes in lock-step (accesses split between seek and readline) over the buffered, "
+             "memory-mapped and map-access classes, comparing every read and the partition of processes by open file description (lseek probe).",
+             note=("Modelled, not verified: POSIX fork/open/lseek semantics as stated; CPython's buffered readers are summarised as 'seek = lseek, readline "
+                   "reads at the descriptor position' (observed with strace, exercised by the real-fork harness). Fork between the seek and the "
+                   "readline of one access of the forking process itself is outside the model. "),
+             tech="Coq proof: invariant (exclusive use of descriptions, pending-seek position) over arbitrary fork/seek/read schedules, refutation witness by vm_compute; lock-step differential correspondence with real fork",
+             ref="DESIGN.md §4 C18"),
  "C19": dict(text="Roman numerals: complete finite-domain proof (all of 1..3999, forallb + vm_compute) and a complete tie (whole "
              "table compared with the implementation each run). arg_sort, sub_seq, search_sub_seq, compare_pos, Batcher, "
              "BatcherIter: Coq theorems for all inputs (specification + uniqueness), tied by small-scope-exhaustive and random "
